@@ -81,6 +81,7 @@ def parseEv (args : List String) : Option Ev :=
   | ["acquire", k] => k.toNat?.map Ev.acquire
   | ["release", k] => k.toNat?.map Ev.release
   | ["badrelease", k] => k.toNat?.map Ev.badRelease
+  | ["acquirefails", k] => k.toNat?.map Ev.acquireFails
   | ["sleep"] => some Ev.sleep
   | ["wait", e] => e.toNat?.map Ev.wait
   | ["finish"] => some Ev.finish
